@@ -601,6 +601,9 @@ impl Space for Addresses {
 
 // ---------------------------------------------------------------------------------------------
 pub fn space(tier: Tier, id: &str) -> Option<Box<dyn Space>> {
+    if let Some(r) = reversed_of(id, |base| space(tier, base)) {
+        return r;
+    }
     match id {
         "columns" => Some(Box::new(Cols)),
         "grid" => Some(Box::new(Grid { thorough: tier == Tier::Thorough })),
@@ -615,7 +618,7 @@ fn replay(tier: Tier, case: &Value) -> Vec<Violation> {
 }
 
 fn run(ctx: &Ctx) -> i32 {
-    let ids = ["columns", "grid", "ranges", "addresses"];
+    let ids = ["columns", "grid", "ranges", "addresses", "columns~rev", "grid~rev", "ranges~rev", "addresses~rev"];
     let spaces = ids.iter().map(|id| (*id, space(ctx.tier, id).unwrap())).collect();
     let thorough = ctx.tier == Tier::Thorough;
     run_e1(
